@@ -14,6 +14,7 @@ import (
 	"strings"
 	"testing"
 	"testing/synctest"
+	"time"
 	"unsafe"
 
 	"github.com/go-kid/ioc/app"
@@ -521,6 +522,7 @@ func Run(t *testing.T, bind *Binding, spec *RunSpec) (obs *model.Obs) {
 		fired := ctx.Fired()
 		obs.Fired = sdl.SortedKeys(fired)
 	}
+	obs.SleptS = int(ctx.Slept / time.Second)
 	obs.MaxParked = ctx.MaxParked
 	obs.Contended = ctx.Contended
 	obs.DupSite = ctx.DupSite
